@@ -258,6 +258,9 @@ def _algebra(V, op):
         for T in (AB.combine_by(op, C), comb(AB, C) if False else AB.combine_by(op, C)):
             V.check(T.combinator == op and tuple(T.args) == (A, B, C), 'algebra:flatten',
                     lambda: '%r args=%r' % (T, T.args))
+            # deriving a wider type must not change the operand it was derived from
+            V.check(tuple(AB.args) == (A, B) and T is not AB, 'algebra:operand-mutated',
+                    lambda: 'after (A %s B) %s C the left operand has args %r' % (op, op, AB.args))
         T2 = LogicalType.combine(op, C).combine_by(op, AB) if isinstance(C, LogicalType) else None
         if T2 is not None:
             V.check(tuple(T2.args) == (C, A, B), 'algebra:flatten-right', lambda: repr(T2.args))
@@ -286,3 +289,37 @@ for _op, _nm in (('|', 'or'), ('^', 'xor'), ('&', 'and')):
               'duplicates collapse; Any absorbs (| and ^ give Rule, & drops it); nested same-kind combinators '
               'flatten in order; data-class operators (LogicalMeta) build the same trees in both operand orders' % _op)(
         (lambda op: lambda V: _algebra(V, op))(_op))
+
+
+# ------------------------------------------------------------------ negation over plain types (their converters raise bare exceptions)
+from decimal import Decimal  # noqa: E402
+
+RAW = [('int', int), ('float', float), ('Decimal', Decimal), ('str', str), ('bool', bool), ('list', list), ('dict', dict)]
+RAW_X = [0, 5, -3, 2.5, float('inf'), float('-inf'), float('nan'), 10 ** 400, 'abc', '7', '', None, [1], {'a': 1}, b'x', Decimal('NaN'),
+         Decimal('Infinity'), object]
+
+
+@ob('negation-raw', marks=['accept', 'reject'], budget=(60, 200),
+    bounds='Not(T) for plain types T in {int, float, Decimal, str, bool, list, dict} and AllOf(float, Not(int)); x picked from 18 values '
+           'incl. +-inf, nan, 10**400, Decimal NaN / Infinity: accepts exactly when T alone rejects (whatever exception the converter '
+           'raises), returns the input unchanged, and only ParseError escapes')
+def negation_raw(V):
+    name, T = V.pick('T', RAW)
+    x = V.pick('x', RAW_X)
+    la = conv(T, x)
+    nested = V.bool('inside_conjunction')
+    if nested:
+        N = LogicalType.all_of(float, LogicalType.not_of(T))
+        fa = conv(float, x)
+        expect = acc(fa) and not acc(conv(T, fa[1]))
+    else:
+        N = LogicalType.not_of(T)
+        expect = not acc(la)
+    r = conv(N, x)
+    d = lambda: '%s(%r): %s alone -> %s ; combinator -> %r' % ('AllOf(float, Not(%s))' % name if nested else 'Not(%s)' % name, x, name,
+                                                              la[0], r if acc(r) else (r[0], type(r[1]).__name__, str(r[1])[:80]))
+    V.check(r[0] != 'crash', 'not:crash', d)
+    V.check(acc(r) == expect, 'not:verdict-raw', d)
+    if acc(r) and not nested:
+        V.check(r[1] is x or same(r[1], x), 'not:altered', d)
+    V.cover('accept' if acc(r) else 'reject')
